@@ -723,6 +723,9 @@ def functions(flags=None, want_gen=None):
             pool = [v for v in LOCALS if v not in excluded and v not in taken] or [v for v in LOCALS if v not in taken]
             if "x" not in taken and pool:
                 pool = pool * 3 + ["x"]  # now and then a parameter is rebound
+                for star in ("rest", "kw", "k"):
+                    if star in pnames and star not in taken:
+                        pool.append(star)
             v = draw(st.sampled_from(pool or ["a"]))
             taken.append(v)
             return ("n", v)
@@ -1012,8 +1015,21 @@ def functions(flags=None, want_gen=None):
         if gen and not any(s[0] in ("yield", "yieldassign", "yieldfrom") for s in walk_stmts(body)):
             body.append(("yield", int_expr(bound, 1)))
         # final return (or fall off the end)
-        tail = draw(st.integers(0, 3))
-        if tail:
+        tail = draw(st.integers(0, 4))
+        if tail == 4:
+            risky = draw(st.sampled_from([("idx", "xs", ("int", 2)), ("bin", "//", ("int", 6), ("var", "x")),
+                                          ("bin", "%", ("int", 7), ("var", "x")), ("len", ("var", "xs"))]))
+            hb = [("expr", ("E", ekey(), ("int", 1)))] if draw(st.booleans()) else [("pass",)]
+            fin = [("expr", ("E", ekey(), ("int", 2)))] if draw(st.integers(0, 3)) == 0 else []
+            shape = draw(st.integers(0, 2))
+            if shape == 0:
+                body.append(("try", [("return", risky)], [(draw(st.sampled_from(["Exception", None, "(IndexError, ZeroDivisionError, TypeError, KeyError)"])), None, hb)], [], fin))
+            elif shape == 1:
+                body.append(("try", [("assign", [("n", "a")], risky)], [("Exception", "ex", hb)], [("return", ("var", "a"))], fin))
+            else:
+                body.append(("if", ("var", "x"), [("try", [("return", risky)], [("Exception", None, hb)], [], [])],
+                             [("return", ("int", 0))]))
+        elif tail:
             pool = sorted(v for v in bound if v in LOCALS)
             items = [("var", v) for v in pool[:3]] or [("int", 0)]
             body.append(("return", ("tuple", items) if tail == 1 else items[0]))
